@@ -14,7 +14,7 @@ INFO = {
                    "linear rules (guards len < K -> Err, loop guards off+32 <= len, loop-counter invariants); an undischarged obligation is a "
                    "concrete crashing request shape. R13-2: on every path that can return Ok(true) the canonical re-encoding of the decoded public "
                    "values is compared with the source bytes input[128..288] (reducing decoders alone are not accepted). R13-3: the proof part "
-                   "is decoded with the validating deserialize_compressed (shared with C02). R13-4 (shared with C11): the C entry points of verification and recovery return false and write nothing on Err, and write the verdict / the produced bytes exactly on Ok.",
+                   "is decoded with the validating deserialize_compressed (shared with C02). R13-4 (shared with C11): the C entry points of verification and recovery return false and write nothing on Err, and write the verdict / the produced bytes exactly on Ok. R13-4 also includes R11-6 (the verification and recovery wrappers cannot panic in their own code).",
     "not_decided": "panics inside third-party code (arkworks deserialisation and pairing, Keccak) are trusted not to occur: they return Err",
     "assumptions": ["Vec lengths are at most isize::MAX, so len + small constant does not overflow usize"],
 }
